@@ -1,0 +1,48 @@
+// This Source Code Form is subject to the terms of the Mozilla Public
+// License, v. 2.0. If a copy of the MPL was not distributed with this
+// file, You can obtain one at http://mozilla.org/MPL/2.0/.
+
+package kv
+
+import (
+	"encoding/base64"
+	"strings"
+
+	"go.yaml.in/yaml/v4"
+)
+
+// YAMLString returns a scalar YAML node for an arbitrary string.
+//
+// The YAML encoder writes multi-line strings as block scalars, but it gets the indentation wrong
+// when the first non-empty line starts with white space: the result is either unreadable or is read
+// back without the leading spaces. Such strings are written double-quoted instead.
+func YAMLString(s string) *yaml.Node {
+	node := &yaml.Node{
+		Kind:  yaml.ScalarNode,
+		Value: s,
+	}
+
+	if strings.ContainsAny(s, "\r\n") {
+		if first := strings.TrimLeft(s, "\r\n"); first != "" && (first[0] == ' ' || first[0] == '\t') {
+			node.Style = yaml.DoubleQuotedStyle
+		}
+	}
+
+	return node
+}
+
+// YAMLStringValue returns the string held by a scalar YAML node.
+//
+// Strings which are not valid UTF-8 are written by the YAML encoder as base64 with the !!binary tag.
+func YAMLStringValue(node *yaml.Node) (string, error) {
+	if node.ShortTag() == "!!binary" {
+		b, err := base64.StdEncoding.DecodeString(node.Value)
+		if err != nil {
+			return "", err
+		}
+
+		return string(b), nil
+	}
+
+	return node.Value, nil
+}
